@@ -177,6 +177,11 @@ def extend (g : Input) : Nat → St → List Nat → Except Err (St × List Nat)
         else extend g fuel (addMob s jr) (jr :: added)
       | none => .error .terminalMassless
 
+/-- level of the endpoint of a joint that is in the tree (`parent.level` if the parent is in the tree, else
+`child.level`) -/
+def inbLevel (s : St) (jt : Joint) : Nat :=
+  match s.level jt.parent with | some l => l | none => (s.level jt.child).getD 0
+
 /-- loop state of `growTree`: the graph, `jointsAdded`, `anyMobilizerAdded` -/
 structure GS where
   s : St
@@ -194,7 +199,7 @@ def growJoint (g : Input) (level : Nat) (st : GS) (jNum : Nat) : Except Err GS :
   | none =>
     if joint.mustLoop then .ok st
     else if inTree s joint.parent == inTree s joint.child then .ok st       -- !(p.isInTree ^ c.isInTree)
-    else if (match s.level joint.parent with | some l => l | none => (s.level joint.child).getD 0) + 1 != level
+    else if inbLevel s joint + 1 != level
       then .ok st                                                           -- "not time yet"
     else
       let s1 := addMob s jNum
